@@ -214,7 +214,10 @@ def run(pid, tier, seed, replay=None):
                 for ty in ("r", "w"):
                     for m in coregen_methods():
                         env = dict(os.environ, IV_EXCLUDE_POLL_METHOD=excl(m))
-                        r = subprocess.run([rexe, ty], stdout=subprocess.PIPE, stderr=subprocess.DEVNULL, text=True, timeout=60, env=env)
+                        for _attempt in range(3):
+                            r = subprocess.run([rexe, ty], stdout=subprocess.PIPE, stderr=subprocess.DEVNULL, text=True, timeout=120, env=env)
+                            if '"unknown"' not in r.stdout:
+                                break
                         if '"End"' not in r.stdout:
                             r_out = r.stdout + '{"t":0,"e":"End","why":"crash","sig":%d,"now":[0,0]}\n' % abs(r.returncode)
                         else:
